@@ -27,7 +27,7 @@ def shapes(maxc):
 TREES = [[], ["d:a"], ["d:a", "d:a/b"], ["f:a"], ["d:a", "f:a/b"], ["d:b", "f:a"], ["d:a", "d:a/a", "f:a/a/b"]]
 
 def run(ck):
-    ck.level = "translation_validation"
+    ck.level = "proof"
     ck.cov["rule"] = ("create_directories: every path shape over components {a, b, ., .., empty} up to 4 (quick) / 5 (thorough), relative and absolute, with trailing separators, "
                       "on 7 pre-existing trees (nothing, partial, file in the way at each depth); compared: status, 'is a directory afterwards', second-call status (API) and the "
                       "resulting tree (white-box). file_equals: size pairs around 0 / 512 / page±1 / 3 pages with the differing byte at first, last and page boundaries, hard link, "
